@@ -7,6 +7,7 @@ import Ptn.C10.Projector
 import Ptn.C10.Value
 import Ptn.C10.ValueRun
 import Ptn.C10.BondDim
+import Ptn.C10.BondAxes
 /-! Property theorems for C10 (selection rule of the singular-value truncation).  Only property
 theorems and non-vacuity examples live here; helper lemmas are in `Lemmas.lean`, the
 specification vocabulary (`Desc`, `NonNeg`, `survives`, `Fits`, `capMin`, `renormFactor`) in
@@ -486,6 +487,84 @@ example : ∃ t t', TRunL TTN.empty buildOps t ∧ t.WF ∧ t.LWF ∧
         · simp only [h3, if_true]; exact ⟨by decide, by decide +kernel, by decide +kernel⟩
         · simp only [h2, h3, if_false]; exact ⟨by decide, by decide +kernel, by decide +kernel⟩),
     by decide +kernel, by decide +kernel, by decide +kernel⟩
+
+/-- **Which axis every bond carries after `recursive_truncation`** (structural model, between the two
+    canonicalisations; every well-formed, label-consistent tree, every choice `kdim` of kept dimensions).  Every
+    virtual leg `(k → x, ax)` of the result belongs to a node `k` of the original tree and is either the leg towards
+    the parent of `k`, with dimension `kdim k`, or the leg towards a child `x` of `k`, with dimension `kdim x`: the
+    bond above every non-root node `c` has - at both ends - exactly the dimension chosen for `c`, the kept dimension
+    of the projector pair inserted on it.  This discharges the hypothesis `hbond` of
+    `recursive_truncation_bonds_le_partial` (proof: the fresh `splitNodes` axis is followed through
+    `insertProjectors`, `contractAllChildren` and the last loop of `truncate_node`, `BondAxes.lean`). -/
+theorem recursive_truncation_bond_axes {t t' : TTN} {kdim : Id → Nat} (h : t.WF) (hl : t.LWF)
+    (hs : t.recursiveTruncation kdim = some t') :
+    ∀ k x ax, t'.Leg k x ax → ∃ m, t.N k = some m ∧
+      ((m.parent = some x ∧ ax.dim = kdim k) ∨ (x ∈ m.children ∧ ax.dim = kdim x)) := by
+  obtain ⟨w', l', _, S', _, G⟩ := recursive_truncation_parent_legs h hl hs
+  intro k x ax hleg
+  obtain ⟨m', L, hm', _, hz⟩ := leg_node hleg
+  have hx : x ∈ m'.neighbours := (List.of_mem_zip hz).1
+  have hSk : t.S k = some (m'.parent, m'.children) := by rw [← S']; exact TTN.S_eq hm'
+  obtain ⟨m, hm, em⟩ := TTN.N_of_S hSk
+  simp only [Prod.mk.injEq] at em
+  refine ⟨m, hm, ?_⟩
+  rcases (mem_neighbours m' x).mp hx with hp | hc
+  · left
+    refine ⟨by rw [← em.1]; exact hp, ?_⟩
+    obtain ⟨ax', l, e⟩ := G k x m'.children (by rw [hSk, hp])
+    rw [leg_unique w' hleg l]; exact e
+  · right
+    refine ⟨by rw [← em.2]; exact hc, ?_⟩
+    obtain ⟨cch, hSx⟩ := h.str.down k _ _ x hSk hc
+    obtain ⟨ax', l, e⟩ := G x k cch hSx
+    rw [leg_unique w' (l'.sym _ _ _ hleg) l]; exact e
+
+/-- **Every bond within `max_bond_dim`** (full: no hypothesis on the result).  `spec c` is the spectrum
+    `truncate_singular_values` is given for the bond above the child `c` (any non-empty, non-negative, descending
+    list), `p` any valid parameter object with `max_bond_dim = D`.  The structural model of `recursive_truncation`
+    run with the kept dimensions of the selection model, on every well-formed, label-consistent tree: well-formed,
+    label-consistent result with the same root, identifiers and open axes, in which EVERY virtual leg of EVERY node
+    has dimension `≤ D`; more precisely the bond above the non-root node `c` has dimension `keptDim (spec c) p`,
+    which is `≥ 1`, `≤ D` and `≤` the number of singular values. -/
+theorem recursive_truncation_bonds_le {t t' : TTN} (spec : Id → List Rat) (p : Params) (D : Nat)
+    (hp : p.Valid) (hD : p.maxBond = some D)
+    (hspec : ∀ c, spec c ≠ [] ∧ NonNeg (spec c) ∧ Desc (spec c))
+    (h : t.WF) (hl : t.LWF)
+    (hs : t.recursiveTruncation (fun c => keptDim (spec c) p) = some t') :
+    (∀ c, 1 ≤ keptDim (spec c) p ∧ keptDim (spec c) p ≤ D ∧ keptDim (spec c) p ≤ (spec c).length) ∧
+    (t'.WF ∧ t'.LWF ∧ t'.root = t.root ∧ (∀ k, t'.N k = none ↔ t.N k = none) ∧
+      (∀ k, t'.openAxes k = t.openAxes k)) ∧
+    (∀ k x ax, t'.Leg k x ax → ∃ c, (c = k ∨ c = x) ∧ ax.dim = keptDim (spec c) p) ∧
+    (∀ e ∈ t'.nodes, ∀ q ∈ t'.legPairs e.1, q.2.dim ≤ D) := by
+  have hb : ∀ k x ax, t'.Leg k x ax → ∃ c, (c = k ∨ c = x) ∧ ax.dim = keptDim (spec c) p := by
+    intro k x ax hleg
+    obtain ⟨m, _, hm⟩ := recursive_truncation_bond_axes h hl hs k x ax hleg
+    rcases hm with ⟨_, e⟩ | ⟨_, e⟩
+    · exact ⟨k, Or.inl rfl, e⟩
+    · exact ⟨x, Or.inr rfl, e⟩
+  obtain ⟨hk, hstr, hle⟩ := recursive_truncation_bonds_le_partial spec p D hp hD hspec h hl hs
+    (fun e _ q hq => by
+      obtain ⟨c, _, e'⟩ := hb e.1 q.1 q.2 hq
+      exact ⟨c, e'⟩)
+  exact ⟨hk, hstr, hb, hle⟩
+
+-- `recursive_truncation_bond_axes` on the chain-with-a-branch: all hypotheses hold, and the bonds of the result
+-- carry exactly the chosen dimensions (bond `1 - 2`: 3 before, `kdim 2 = 2` after; `2 - 4`: 2 before, 1 after)
+set_option maxRecDepth 16384 in
+example : ∃ t t', TRunL TTN.empty buildOps t ∧ t.WF ∧ t.LWF ∧
+    t.recursiveTruncation (fun c => keptDim (exSpec c) exPrm) = some t' ∧
+    t.legPairs 1 = [(2, ⟨100, 3⟩), (3, ⟨101, 2⟩)] ∧
+    t'.legPairs 1 = [(2, ⟨1000000, 2⟩), (3, ⟨1000001, 2⟩)] ∧
+    t'.legPairs 4 = [(2, ⟨1000002, 1⟩)] :=
+  ⟨_, _, .cons ⟨rfl, rfl⟩ trivial rfl (.cons trivial ⟨_, rfl, rfl⟩ rfl (.cons trivial ⟨_, rfl, rfl⟩ rfl
+      (.cons trivial ⟨_, rfl, rfl⟩ rfl (.nil _)))),
+    (builtL_labels (show TRunL TTN.empty buildOps _ from
+      .cons ⟨rfl, rfl⟩ trivial rfl (.cons trivial ⟨_, rfl, rfl⟩ rfl (.cons trivial ⟨_, rfl, rfl⟩ rfl
+        (.cons trivial ⟨_, rfl, rfl⟩ rfl (.nil _)))))).1,
+    (builtL_labels (show TRunL TTN.empty buildOps _ from
+      .cons ⟨rfl, rfl⟩ trivial rfl (.cons trivial ⟨_, rfl, rfl⟩ rfl (.cons trivial ⟨_, rfl, rfl⟩ rfl
+        (.cons trivial ⟨_, rfl, rfl⟩ rfl (.nil _)))))).2,
+    rfl, by decide +kernel, by decide +kernel, by decide +kernel⟩
 
 end bond_dims
 
